@@ -1,4 +1,70 @@
-From HP Require Import Base.Prelude Base.Path.
-Example C04_smoke : valid_path (S "a/b") = true /\ valid_path (S "a//b") = false.
-Proof. vm_compute. auto. Qed.
-Print Assumptions C04_smoke.
+(* C04 -- Names that are not valid FS paths are rejected everywhere and change nothing.
+   Model: [valid_path] = io/fs.ValidPath incl. utf8.ValidString (Base/Path.v, compared with the Go
+   standard library on every run); the gate of the key-value FS ([step], KV/Run.v), of the generic Sub
+   view ([sstep]) and of mount.FS ([mstep]).  cache, tar and os.FS are covered by the harness's oracle on
+   the real code (they delegate to these gates or call ValidPath directly), not by theorems here. *)
+From HP Require Import Base.Prelude Base.Path Base.PathProofs KV.Types KV.FS KV.Handle KV.Run KV.GateProofs
+  Compose.Mount Compose.Sub Compose.GateCompose.
+Open Scope N_scope.
+
+(* What ValidPath accepts: valid UTF-8 and either "." or only real elements. *)
+Theorem C04_valid_path_spec : forall s, valid_path s = true <->
+  utf8_valid s = true /\ (s = dot \/ Forall (fun e => elem_ok e = true) (split_slash s)).
+Proof. exact valid_path_spec. Qed.
+Print Assumptions C04_valid_path_spec.
+
+Theorem C04_valid_path_elements : forall s, valid_path s = true -> s <> dot ->
+  Forall (fun e => e <> [] /\ e <> dot /\ e <> dotdot /\ no_slash e) (split_slash s).
+Proof. exact valid_path_elements. Qed.
+Print Assumptions C04_valid_path_elements.
+
+(* The key-value (and in-memory) FS: every operation, either name of Rename. *)
+Theorem C04_kv_rejects_invalid_names_and_changes_nothing : forall st o,
+  (exists p, In p (names_of o) /\ valid_path p = false) ->
+  fst (step st o) = st /\ is_einval (snd (step st o)).
+Proof. exact kv_gate. Qed.
+Print Assumptions C04_kv_rejects_invalid_names_and_changes_nothing.
+
+(* The generic Sub view and mount.FS: same, and no constituent changes. *)
+Theorem C04_sub_rejects_invalid_names : forall base st o p,
+  names_of o = [p] -> valid_path p = false -> (forall q f m, o <> Open q f m) ->
+  fst (sstep base st o) = st /\ snd (sstep base st o) = VErr (PathErr p EINVAL).
+Proof. exact sub_gate. Qed.
+Print Assumptions C04_sub_rejects_invalid_names.
+
+Theorem C04_mount_rejects_invalid_names : forall m o p,
+  names_of o = [p] -> valid_path p = false -> (forall q f md, o <> Open q f md) -> (0 < length (m_fs m))%nat ->
+  fst (mstep m o) = m /\ snd (mstep m o) = VErr (PathErr p EINVAL).
+Proof. exact mount_gate. Qed.
+Print Assumptions C04_mount_rejects_invalid_names.
+
+Theorem C04_mount_rename_rejects_either_invalid_name : forall m a b,
+  valid_path a = false \/ valid_path b = false -> mstep m (Rename a b) = (m, VErr (LinkErr a b EINVAL)).
+Proof. exact mount_gate_rename. Qed.
+Print Assumptions C04_mount_rename_rejects_either_invalid_name.
+
+(* Conversely: a valid name is never refused as invalid by the look-up every operation starts with. *)
+Theorem C04_valid_name_not_refused_as_invalid : forall st p, valid_path p = true ->
+  get_file st p <> (st, inr (Bare EINVAL)) \/ exists st' r, get_file st p = (st', r) /\ r <> inr (Bare EINVAL).
+Proof. exact gate_accepts_valid. Qed.
+Print Assumptions C04_valid_name_not_refused_as_invalid.
+
+(* Only '/' separates: a single slash-free element (not empty, "." or "..") is a valid name whatever
+   other bytes it holds -- backslash and colon are ordinary name bytes. *)
+Theorem C04_no_foreign_separator : forall e,
+  utf8_valid e = true -> e <> [] -> e <> dot -> e <> dotdot -> no_slash e -> valid_path e = true.
+Proof. exact single_element_valid. Qed.
+Print Assumptions C04_no_foreign_separator.
+
+Example C04_backslash_colon_witness :
+  valid_path (S "a\b") = true /\ valid_path (S "c:") = true /\ valid_path (S "d/c:\x") = true
+  /\ split_slash (S "d/c:\x") = [S "d"; S "c:\x"].
+Proof. exact backslash_colon_are_name_bytes. Qed.
+Print Assumptions C04_backslash_colon_witness.
+
+Example C04_nonvacuous :
+  valid_path (S "") = false /\ valid_path (S "/a") = false /\ valid_path (S "a/") = false /\ valid_path (S "a//b") = false
+  /\ valid_path (S "a/./b") = false /\ valid_path (S "../a") = false /\ valid_path [255] = false /\ valid_path [237;160;128] = false
+  /\ valid_path (S ".") = true /\ valid_path (S "a/b") = true.
+Proof. vm_compute. repeat split. Qed.
+Print Assumptions C04_nonvacuous.
